@@ -344,19 +344,19 @@ def prange_case(quick):
     from hdc.algo.ops.ws2doptvplc import ws2doptvplc_tyx
 
     rs = np.random.RandomState(3)
-    tyx = (3000 + 1500 * np.sin(np.arange(30)[:, None, None] * 0.5 + rs.rand(1, 12, 9) * 6) + rs.randint(-400, 400, (30, 12, 9))).astype("int16")
-    tyx[rs.rand(30, 12, 9) < 0.1] = ND
+    tyx = (3000 + 1500 * np.sin(np.arange(30)[:, None, None] * 0.5 + rs.rand(1, 24, 20) * 6) + rs.randint(-400, 400, (30, 24, 20))).astype("int16")
+    tyx[rs.rand(30, 24, 20) < 0.1] = ND
 
     def dg(nt):
         numba.set_num_threads(nt)
         zz, lo = ws2doptvplc_tyx(tyx, 0.9, ND)
-        return {"px": [hashlib.md5(np.ascontiguousarray(zz[:, i, j]).tobytes() + lo[i, j].tobytes()).hexdigest()[:12] for i in range(12) for j in range(9)], "dims": ["t", "y", "x"], "dtype": str(zz.dtype), "coords": []}
+        return {"px": [hashlib.md5(np.ascontiguousarray(zz[:, i, j]).tobytes() + lo[i, j].tobytes()).hexdigest()[:12] for i in range(24) for j in range(20)], "dims": ["t", "y", "x"], "dtype": str(zz.dtype), "coords": []}
 
     maxt = numba.config.NUMBA_NUM_THREADS
     base = dict(dg(1), outcome="ok")
     runs = []
-    for nt in ([2, 4, maxt] if quick else list(range(2, maxt + 1))):
-        for rep_ in range(1 if quick else 2):
+    for nt in ([2, 4, 8, maxt] if quick else list(range(2, maxt + 1))):
+        for rep_ in range(2 if quick else 3):
             runs.append(dict(dg(min(nt, maxt)), cfg=f"numba-threads:{nt}", kind="threads", timechunked=False, outcome="ok"))
     numba.set_num_threads(maxt)
     return {"op": "blocked", "name": "ws2doptvplc_tyx(prange)", "base": base, "runs": runs}
